@@ -39,6 +39,7 @@ class Base:
         self.stats = {"remove-then-add": 0, "edit-on-" + init["start"]: 0, "refused": 0, "auto": 0, "explicit": 0, "bulk": 0, "auto-refused": 0}
         self.removed_once = False
         self.removed_items = []
+        self.freed = []
         self.make_block(init)
         self.check("init")
 
@@ -58,6 +59,11 @@ class Base:
 
     def pick_channel(self, op, free):
         used = sorted(self.used())
+        if free and op.get("reuse") and self.freed:
+            c = self.freed[-1]
+            if c not in used:
+                self.stats["reused-freed-channel"] = self.stats.get("reused-freed-channel", 0) + 1
+                return c
         if free:
             c = op.get("ch", 0) % 32000
             while c in used:
@@ -147,6 +153,7 @@ class Base:
 
     def drop_model(self, idx):
         self.removed_items.append(self.items[self.model[idx][1]])
+        self.freed.append(self.model[idx][0])
         del self.model[idx]
         self.removed_once = True
         self.edited()
@@ -181,6 +188,12 @@ class Base:
 
     def finish(self):
         self.check("end")
+        by = getattr(self, "bystander", None)
+        if by is not None:
+            now = [(int(c), id(p)) for c, p in by.platforms]
+            if now != self.bystander_pairs or len(by) != len(self.bystander_pairs) or len(by._platformMap) != len(self.bystander_pairs):
+                self.ctx.fail("constructor/bystander-changed", f"platCal: a second block constructed from the same list of platforms changed although only the first "
+                                                               f"was edited ({len(self.bystander_pairs)} pairs -> {len(now)} pairs, len()={len(by)}, {len(by._platformMap)} channel numbers)")
 
     def close(self):
         pass
@@ -196,6 +209,8 @@ class EmgInterp(Base):
         if init["start"] == "decoded":
             k = init.get("k", 2)
             chans = [(init.get("ch0", 0) + 3 * i) % 32000 for i in range(k)]
+            if init.get("ch0", 0) % 2:
+                chans = sorted(set(chans), reverse=True) if len(set(chans)) == len(chans) else chans   # descending map
             spec = {"t": "emg", "format": 1, "frequency": 1000, "startTime": 0, "nSamples": self.N,
                     "signals": [{"label": f"d{i}", "channel": chans[i], "frames": [fbits(1000 + i)] * self.N} for i in range(k)]}
             self.b, _ = specs.lib_decode("emg", 1, reftdf.encode(spec))
@@ -260,6 +275,8 @@ class PlatCalInterp(Base):
         if init["start"] == "decoded":
             k = init.get("k", 2)
             chans = [(init.get("ch0", 0) + 3 * i) % 32000 for i in range(k)]
+            if init.get("ch0", 0) % 2:
+                chans = sorted(set(chans), reverse=True) if len(set(chans)) == len(chans) else chans   # descending map
             spec = {"t": "platCal", "format": 2, "plats": [{"channel": chans[i], "label": f"d{i}", "size": [ONE, ONE], "position": [ONE] * 12} for i in range(k)]}
             self.b, _ = specs.lib_decode("platCal", 2, reftdf.encode(spec))
             for i, (c, p) in enumerate(self.b.platforms):
@@ -270,7 +287,11 @@ class PlatCalInterp(Base):
             for _ in range(k):
                 p, tag = self.fresh()
                 plats.append((p, tag))
-            self.b = ForcePlatformsCalibrationDataBlock(platforms=[p for p, _ in plats])
+            source_list = [p for p, _ in plats]
+            self.b = ForcePlatformsCalibrationDataBlock(platforms=source_list)
+            # a second block made from the very same list object: it is never touched again and must stay as constructed
+            self.bystander = ForcePlatformsCalibrationDataBlock(platforms=source_list)
+            self.bystander_pairs = [(int(c), id(p)) for c, p in self.bystander.platforms]
             # channels are automatic here: whatever the block exposes must be unique and complete
             pairs = self.b.platforms
             if len(pairs) != k or len(self.b) != k or len(self.b._platformMap) != k:
@@ -437,7 +458,12 @@ class PlatCalInterp(Base):
                 self.model = [(int(c), id(it)) for c, it in self.exposed()]
                 self.check("assign-collide")
             else:
-                ok, _ = self.ctx.must(lambda: setattr(self.b, "platforms", [(c, p) for c, (p, _) in zip(chans, new)]), "assign", "bulk assignment of (channel, platform) pairs")
+                pairs_ = [(c, p) for c, (p, _) in zip(chans, new)]
+                form = op.get("form", "list")
+                arg = {"list": lambda: pairs_, "tuple": lambda: tuple(pairs_), "generator": lambda: (x for x in pairs_),
+                       "zip": lambda: zip(chans, [p for p, _ in new]), "iter": lambda: iter(pairs_), "dict-items": lambda: dict(pairs_).items()}[form]()
+                self.stats["assign-form:" + form] = self.stats.get("assign-form:" + form, 0) + 1
+                ok, _ = self.ctx.must(lambda: setattr(self.b, "platforms", arg), "assign", f"bulk assignment of (channel, platform) pairs given as {form}")
                 if ok:
                     self.model = []
                     for (p, tag), c in zip(new, chans):
@@ -456,6 +482,8 @@ class PlatDataInterp(Base):
         if init["start"] == "decoded":
             k = init.get("k", 2)
             chans = [(init.get("ch0", 0) + 3 * i) % 32000 for i in range(k)]
+            if init.get("ch0", 0) % 2:
+                chans = sorted(set(chans), reverse=True) if len(set(chans)) == len(chans) else chans   # descending map
             spec = {"t": "platData", "format": 1, "frequency": 100, "startTime": 0, "nFrames": self.N,
                     "plats": [{"channel": chans[i], "frames": [[fbits(5000 + i)] * 6] * self.N} for i in range(k)]}
             self.b, _ = specs.lib_decode("platData", 1, reftdf.encode(spec))
@@ -544,14 +572,15 @@ def inits(t):
 def ops(t):
     ch = st.one_of(st.integers(0, 6), st.integers(0, 31999))
     idx = st.integers(0, 1000)
-    add = st.fixed_dictionaries({"op": st.just("add"), "mode": st.sampled_from(["auto", "auto", "free", "free", "taken"]), "ch": ch, "np": st.booleans()})
+    add = st.fixed_dictionaries({"op": st.just("add"), "mode": st.sampled_from(["auto", "auto", "free", "free", "taken"]), "ch": ch, "np": st.booleans(), "reuse": st.booleans()})
     readd = st.fixed_dictionaries({"op": st.just("readd"), "mode": st.sampled_from(["auto", "free"]), "idx": idx, "ch": ch})
     if t == "emg":
         rem = st.fixed_dictionaries({"op": st.just("remove"), "target": st.sampled_from(["present", "present", "absent"]), "idx": idx})
         return st.one_of(add, add, rem, rem, readd)
     if t == "platCal":
         rem = st.fixed_dictionaries({"op": st.just("remove"), "target": st.sampled_from(["index", "item", "index-out-of-range", "absent-item"]), "idx": idx})
-        many = st.fixed_dictionaries({"op": st.sampled_from(["remove-many", "add-many", "assign", "add-many-unequal"]), "mode": st.sampled_from(["free", "auto", "collide"]), "idx": idx, "ch": ch})
+        many = st.fixed_dictionaries({"form": st.sampled_from(["list", "tuple", "generator", "zip", "iter", "dict-items"]),
+                                      "op": st.sampled_from(["remove-many", "add-many", "assign", "assign", "add-many-unequal"]), "mode": st.sampled_from(["free", "auto", "collide"]), "idx": idx, "ch": ch})
         twin = st.fixed_dictionaries({"op": st.just("add-twin"), "idx": idx, "ch": ch})
         return st.one_of(add, add, rem, rem, rem, many, readd, twin)
     assign = st.fixed_dictionaries({"op": st.just("assign"), "mode": st.sampled_from(["valid", "valid", "collide"]), "idx": idx})
